@@ -25,6 +25,8 @@ CLAIMED = {
          "value-flow provenance, guard-dominance and ordering rules over clang CFGs + constant vtable tables"),
  "C02": ("Static rules over source/hash_table.c and lookup3.inl: who may call the destructors and under which guards, hand-over XOR destroy on removal, entry_count pairing, load check before admission, resize clamps max_load below size and mask = size-1 (numeric abstract interpretation), every hash code >= 1, NULL-safe equality tests identity first, no stale table state after a resize, every slot subscript below size (NUM with the table's validity predicate), iterator-delete limit adjustment decided as an exact two-sided numeric condition, alignment variants of the key hash agree. Map equivalence under collisions is not decided.",
          "guard-dominance, typestate and use-after-invalidate rules + numeric abstract interpretation over clang CFGs"),
+ "C15": ("Numeric abstract interpretation of aws_ring_buffer_acquire / acquire_up_to: on each of the 10 success paths the vended range is inside the storage and inside the free region of the observed head/tail case (strictly before tail where required), the published head equals base+n, n is the requested size / within [minimum, requested]; plus single-writer discipline of head and tail, memory orders on tail, and release publishing the end of the released buffer before zeroing it. Interleavings are not explored.",
+         "abstract interpretation (linear constraints over symbolic pointers) + who-may-store / memory-order tables"),
 }
 NA_DEFAULT = "check not built yet in this commit (see DESIGN.md section 9 build order)"
 NA = {}
